@@ -136,6 +136,10 @@ def build(sc, grad=None, x64=True):
             det = fdtdx.PoyntingFluxDetector(name=f"d{i}_poynting", partial_grid_shape=(None, None, 1), dtype=DT,
                                              plot=False, direction="+", switch=sw)
             cons.append(det.place_at_center(vol))
+        elif d["kind"] == "phasor":          # accumulates state + new sample: whatever reset leaves behind is carried on
+            det = fdtdx.PhasorDetector(name=f"d{i}_phasor", partial_grid_shape=(2, 2, 2), wave_characters=[wave], plot=False,
+                                       reduce_volume=bool(d.get("reduce", False)), switch=sw)
+            cons.append(det.place_at_center(vol))
         else:
             raise ValueError(d)
         objs.append(det)
